@@ -238,6 +238,8 @@ func applyFS(fs hackpadfs.FS, op Op) (res Res) {
 			}
 			_ = f.Close()
 		}
+	case "sub":
+		_, res.Err = hackpadfs.Sub(fs, op.P)
 	case "readdir":
 		des, err := hackpadfs.ReadDir(fs, op.P)
 		res.Err = err
